@@ -1,8 +1,10 @@
 from lib.engine import Check
 from lib.emit import emit_stream
+from lib import srcfacts
 
 CHECK = Check(
     "C01",
+    pre=srcfacts.pre,
     streams=[emit_stream("c01", drv="c01")],
     rule=("generated inspectors of the model's emit units (quick: every third supported unit of the representative shape set + "
           "multi-field structs; thorough: every supported depth<=2 unit) x value variants (pointers nil/set, collections "
